@@ -505,6 +505,39 @@ func (t *tb) term1(v ssa.Value) aff {
 		switch x.Op {
 		case token.ADD:
 			if isIntegerType(x.Type()) {
+				// an addition in a type narrower than 64 bits whose operands can fill that type wraps: it is not the sum
+				// (only sums of values read off the wire - they take every value of their width - are judged; a field such as the
+				// header length is small by construction)
+				if w, uns, ok := intBits(x.Type()); ok && uns && w < 64 {
+					maxOf := func(v ssa.Value) (uint64, bool) {
+						if k, isK := t.constVal(v); isK && k >= 0 {
+							return uint64(k), true
+						}
+						b := t.ubits(v)
+						if bt := bitsOfTerm(t.term(v)); bt < b {
+							b = bt
+						}
+						if b >= 64 {
+							return 0, false
+						}
+						return (uint64(1) << uint(b)) - 1, true
+					}
+					wire := func(v ssa.Value) bool {
+						tv := t.term(v)
+						for s := range tv.syms {
+							if strings.HasPrefix(s, "LE(") || strings.HasPrefix(s, "BE(") {
+								return true
+							}
+						}
+						return false
+					}
+					mx, okx := maxOf(x.X)
+					my, oky := maxOf(x.Y)
+					if (wire(x.X) || wire(x.Y)) && (!okx || !oky || mx+my >= uint64(1)<<uint(w)) {
+						s := t.term(x.X).add(t.term(x.Y), 1)
+						return t.atomOf("wrap%d(%s)", w, s.String())
+					}
+				}
 				return t.term(x.X).add(t.term(x.Y), 1)
 			}
 		case token.SUB:
